@@ -136,6 +136,8 @@ func globMode(in *bufio.Scanner, out *json.Encoder) error {
 		return err
 	}
 	defer os.RemoveAll(base)
+	os.Mkdir(filepath.Join(base, "tgt"), 0o700)
+	os.WriteFile(filepath.Join(base, "tgt", "a"), nil, 0o600)
 	n := 0
 	for in.Scan() {
 		var c globCase
@@ -161,6 +163,11 @@ func globMode(in *bufio.Scanner, out *json.Encoder) error {
 				err = os.Mkdir(p, 0o700)
 			case "link":
 				err = os.Symlink("nonexistent-target", p)
+			case "ldir":
+				// a symbolic link to a directory outside the tree that holds the file a
+				err = os.Symlink(filepath.Join(base, "tgt"), p)
+			case "lfile":
+				// the entry seen through the link: it exists in the target already
 			default:
 				err = os.WriteFile(p, nil, 0o600)
 			}
